@@ -110,10 +110,10 @@ public:
         // init() of the next run reads the day of the active file's content back from the
         // modification time. Buffered records reach the file when it is flushed or closed,
         // which may be a day later than they were logged: give the file the day of its
-        // content again
+        // content again (noon: a local time that exists on every day in every time zone)
         if (m_rotationDaily && m_initialized && m_currentLogDate.isValid()
             && m_currentLogDate != QDate::currentDate() && file->size() > 0) {
-            file->setFileTime(QDateTime(m_currentLogDate, QTime(23, 59, 59)),
+            file->setFileTime(QDateTime(m_currentLogDate, QTime(12, 0)),
                               QFileDevice::FileModificationTime);
         }
 #endif
